@@ -173,11 +173,12 @@ Qed.
 
 (* every source file of every package of a valid bundle converts: loadLocalPackage succeeds *)
 Theorem convert_package_total bd pkg :
-  valid_bundle snake camel bd = true -> (exists f, In f bd /\ bfile_pkg f = pkg) ->
+  valid_bundle snake camel screaming bd = true -> (exists f, In f bd /\ bfile_pkg f = pkg) ->
   exists D, convert_package snake camel screaming bd pkg = Ok D.
 Proof.
   unfold valid_bundle, convert_package. intros H (f0 & Hin0 & Hp0).
   apply andb_true_iff in H. destruct H as [H _]. apply andb_true_iff in H. destruct H as [H _].
+  apply andb_true_iff in H. destruct H as [H _].
   rewrite forallb_forall in H.
   assert (Hne : pkg_files bd pkg <> []).
   { intros E. assert (Hi : In f0 (pkg_files bd pkg)).
